@@ -92,3 +92,75 @@ impl Probe {
         self.exec(m, false)
     }
 }
+
+// ------------------------------------------------------------------------------------------------
+// Script probes: a WAT package (one exported function per script) whose functions are straight-line
+// sequences of `actor_get_package_address()` (= one allocate_buffer of a 30-byte buffer in the REAL
+// ScryptoRuntime table) and `buffer_consume(id, dest)`.  The frame starts with buffer id 0 live (the
+// 3-byte argument buffer allocated by ScryptoVm before the export is invoked).  A host error traps
+// the frame, so the observation of a script is its first error (or success).
+// ------------------------------------------------------------------------------------------------
+#[derive(Clone, Debug)]
+pub enum SOp {
+    Alloc,
+    Consume(u32, u32),
+}
+/// bytes of the buffer allocated by `Alloc` (a package address) and of the argument buffer (`()`)
+pub const ALLOC_LEN: u64 = 30;
+pub const ARGS_LEN: u64 = 3;
+
+pub struct ScriptProbe {
+    ledger: Ledger,
+    package: PackageAddress,
+    pub runs: u64,
+}
+
+pub fn script_wat(scripts: &[Vec<SOp>]) -> String {
+    let mut s = String::from(
+        r#"(module
+  (import "env" "actor_get_package_address" (func $alloc (result i64)))
+  (import "env" "buffer_consume" (func $consume (param i32 i32)))
+  (memory $0 1)
+  (export "memory" (memory $0))
+  (func $unit (result i64)
+    (i32.store8 (i32.const 0) (i32.const 92))
+    (i32.store8 (i32.const 1) (i32.const 33))
+    (i32.store8 (i32.const 2) (i32.const 0))
+    (i64.const 3))
+"#,
+    );
+    for (k, ops) in scripts.iter().enumerate() {
+        s.push_str(&format!("  (func $Test_f{} (param i64) (result i64)\n", k));
+        for op in ops {
+            match op {
+                SOp::Alloc => s.push_str("    (drop (call $alloc))\n"),
+                // i32.const takes the u32 bit pattern as a signed literal
+                SOp::Consume(id, dest) => s.push_str(&format!("    (call $consume (i32.const {}) (i32.const {}))\n", *id as i32, *dest as i32)),
+            }
+        }
+        s.push_str(&format!("    (call $unit))\n  (export \"Test_f{}\" (func $Test_f{}))\n", k, k));
+    }
+    s.push_str(")\n");
+    s
+}
+
+impl ScriptProbe {
+    pub fn new(scripts: &[Vec<SOp>]) -> ScriptProbe {
+        let mut ledger: Ledger = LedgerSimulatorBuilder::new().without_kernel_trace().build();
+        let code = wat::parse_str(&script_wat(scripts)).expect("script wat");
+        let names: Vec<(String, String)> = (0..scripts.len()).map(|k| (format!("f{}", k), format!("Test_f{}", k))).collect();
+        let def = PackageDefinition::new_functions_only_test_definition("Test", names.iter().map(|(a, b)| (a.as_str(), b.as_str(), false)).collect());
+        let package = ledger.publish_package((code, def), BTreeMap::new(), OwnerRole::None);
+        ScriptProbe { ledger, package, runs: 0 }
+    }
+    pub fn run(&mut self, k: usize) -> Outcome {
+        self.runs += 1;
+        let manifest = ManifestBuilder::new().lock_fee_from_faucet().call_function(self.package, "Test", format!("f{}", k), manifest_args!()).build();
+        let ledger = &mut self.ledger;
+        classify(vh_common::catch(std::panic::AssertUnwindSafe(|| {
+            let nonce = ledger.next_transaction_nonce();
+            let tx = TestTransaction::new_v1_from_nonce(manifest, nonce, btreeset!());
+            ledger.execute_transaction_no_commit(tx, radix_engine::transaction::ExecutionConfig::for_test_transaction())
+        })))
+    }
+}
